@@ -39,14 +39,17 @@ class M:
         adv = [f for f in self.fns if any(True for _ in f.calls(SL + '::advance'))]
         cx.require(len(adv) == 1, 'expected exactly one SortedDeque method that advances the deque (front cleanup), found %s' % [f.name for f in adv])
         self.front_cleaner = adv[0]
-        loops = []
+        # back cleanup, by effect: the method whose pop_back of self.items is guarded by is_erased(back())
+        cands = []
         for f in self.fns:
-            for h in f.loop_headers():
-                body = f.loop_blocks(h)
-                if any(cs.bb in body for cs in f.calls(SL + '::pop_back')):
-                    loops.append(f)
-        cx.require(len(set(loops)) == 1, 'expected exactly one method popping the back in a loop (back cleanup), found %s' % [f.name for f in loops])
-        self.back_cleaner = loops[0]
+            for cs in f.calls(SL + '::pop_back'):
+                for e, val, edge in f.facts_at(cs.bb):
+                    x = e.strip()
+                    if val is True and x.kind == 'call' and x.op.endswith('::is_erased') and len(x.args) == 2 and x.args[1].has_call(SL + '::back'):
+                        if f not in cands:
+                            cands.append(f)
+        cx.require(len(cands) == 1, 'expected exactly one method popping erased items off the back (back cleanup), found %s' % [f.name for f in cands])
+        self.back_cleaner = cands[0]
 
     def is_items(self, e):
         return is_param_field(e, 'items')
